@@ -404,8 +404,9 @@ theorem C13_dist_dry_is_identity_hardclip (s : Distortion ℝ) (h : s.Stagnant) 
     have h1 : ¬ x < -1 := not_lt.mpr this.1
     have h2 : ¬ 1 < x := not_lt.mpr this.2
     simp [h1, h2]
+  have h10 : feq (1 : ℝ) (0.0 : ℝ) = false := by simp
   simp only [Distortion.tick, clamp01_of_ge_one _ h1, dryWet_wet, hd, C19_amp_zero_db, hk, Distortion.wet,
-    Distortion.shape, id]
+    Distortion.shape, id, h10, Bool.false_eq_true, if_false]
   ext
   · simp only [Frame.fdivs_left, Frame.fscale_left, lit_1, mul_one, div_one]; exact cl _ hl
   · simp only [Frame.fdivs_right, Frame.fscale_right, lit_1, mul_one, div_one]; exact cl _ hr
@@ -417,7 +418,9 @@ theorem C13_dist_silence_to_silence (s : Distortion ℝ) (h : s.Stagnant) (_hd :
   simp only [silence, List.map_replicate]
   congr 1
   simp only [Distortion.tick, Distortion.wet, dryWet_real]
-  cases s.kind <;> (ext <;> simp [Distortion.shape, clamp] <;> norm_num)
+  split
+  · ext <;> simp
+  · cases s.kind <;> (ext <;> simp [Distortion.shape, clamp] <;> norm_num)
 
 /-- **defined**: above −60 dB the linear drive (the divisor of the wet path) is positive; the
     soft-clip denominator `1 + |x|` is ≥ 1; both square-root arguments of the blend lie in [0, 1]. -/
